@@ -39,8 +39,8 @@ class C06(Driver):
         # exotic plans let one select name the same channel in several clauses (a select that can
         # match itself); violations found there carry their own signature suffix
         exotic = r.random() < 0.1
-        w_sel = r.choice([0, 0.1, 0.25])
-        w_close = r.choice([0, 0.03, 0.08])
+        w_sel = r.choice([0, 0.1, 0.25, 0.5])
+        w_close = r.choice([0, 0.03, 0.08, 0.15])
         w_sleep = r.choice([0.05, 0.15, 0.3])
         fibers = []
         for f in range(nf):
